@@ -12,26 +12,30 @@ from vlib import common as C
 ID = 'C03'
 READY = True
 EXHAUSTIVE = True
-LEVEL_TEXT = ('Every clause is a Coq theorem about the model; two links of the divergence clause to the implementation\'s numbers are tested only (stated below). '
+LEVEL_TEXT = ('Every clause is a Coq theorem about the model, including (round 4) the divergence clause at the implementation\'s own edge points; what remains tested only is stated at the end. '
               'Proved: (1) every tabulated triangle rule, re-extracted from the decimal source text on every run, is exact to 2e-15 on all monomials up to the '
               'degree it is selected for (d = 1..10), weights > 0, points in the closed reference triangle; (2) soundness of the certificate checkers run by '
               'vm_compute on the exact rational value of every runtime table (1-D Gauss rules d = 0..25 to 1e-13, binary64 triangle rules to 1e-14, 2-D and 1-D '
               'shape tables of orders 1..5 with/without bubble at every rule: values and gradients reproduce every monomial of degree <= order to 1e-11, '
-              'face-node layout against the 1-D element, 1-D node sets 0/1-anchored, increasing, symmetric) -- exhaustive over the configuration set; (3) lifting '
+              'face-node layout against the 1-D element, 1-D node sets 0/1-anchored, increasing, symmetric; Lebesgue sums of the 1-D tables <= 2) -- exhaustive over the configuration set; (3) lifting '
               'over R to every non-degenerate affine element and every mesh with explicit tolerance propagation: partition of unity, zero gradient sum, exact '
               'interpolation and exact mapped gradients of polynomial fields of degree <= order (affine closure + normal form; the gradient components are proved '
-              'to be the partial derivatives), volumes sum to signed area / total area of a counter-clockwise mesh, quadrature exactness against the Riemann '
+              'to be the partial derivatives); the mapped gradients solve J^T g = dN uniquely (they ARE J^-T dN, J the Jacobian of the element map) and their nodal sum is the mapped sum of the reference gradients (exactly zero when those sum to zero); '
+              'volumes sum to signed area / total area of a counter-clockwise mesh, quadrature exactness against the Riemann '
               'integral (the monomial formula i!j!/(i+j+2)! is proved to be the iterated integral over the reference triangle; change of variables by the affine '
-              'map), axisymmetric mode with 2 pi r spending one degree (tolerance and exact versions); (4) divergence theorem for polynomial vector fields on every '
-              'affine triangle (Green on the reference triangle + Piola pull-back) and on a mesh by cancellation of interior-edge fluxes, with the edge-list premise derived from C13\'s create_edges theorems for consistently oriented manifold triangulations, and exactness of the edge '
-              'quadrature sum at exact edge points. Tested only (L2): propagation of the 1e-11 error of the interpolated edge points through F in the edge sums.')
+              'map), axisymmetric mode with 2 pi r spending one degree (tolerance and exact versions, per element and summed over a mesh for any nodal basis with the reference identities, bubble or not); (4) divergence theorem for polynomial vector fields on every '
+              'affine triangle (Green on the reference triangle + Piola pull-back) and on a mesh by cancellation of interior-edge fluxes, with the edge-list premise derived from C13\'s create_edges theorems for consistently oriented manifold triangulations; '
+              '(5) the edge sum exactly as FunctionSpace.integrate_function_on_edge forms it (F at the interpolated points X_q = sum_a N_a(s_q) X_a, unit normal and jac * w_q of compute_edge_vectors) differs from the flux by at most '
+              'C eps_q + (1 + eps_q) * eta * (Lip(F1) |t_y| + Lip(F2) |t_x|) with eta = delta * Lam + eps_s * emax (explicit Lipschitz constant of a polynomial on a box from its normal form; X_q within eta of A + s_q t from the certified '
+              '1-D identities k = 0, 1; delta = placement error of the edge nodes, Lam = certified Lebesgue sum), in Lipschitz form C eps_q + L (1 + eps_q) eps_s for exact nodes, and summed over the boundary edges reported by create_edges against the sum of the element integrals of div F. '
+              'Tested only: binary64 rounding inside FunctionSpace/Mesh (L1 on the geometric kernels, L2 head-room), the node placement error delta of elevated meshes (owned by C13; measured per edge in L2), the interpolated nodal field u_q handed to func on edges.')
 TECHNIQUE = ('Coq proof: vm_compute-checked exactness of the quadrature tables regenerated from the source text; proved certificate '
              'checkers run on the exact rational value of every runtime table (complete configuration set); lifting theorems over R '
              'for every affine element; PrimFloat correspondence for the geometric kernels')
 GEN = ['Tab_TriQuad', 'Tab_FsGeom']
-TARGETS = ['model/M_C03.vo', 'proofs/L_C03sn.vo', 'proofs/L_C03cert.vo', 'proofs/L_C03tab.vo', 'proofs/L_C03lift.vo', 'proofs/L_C03int.vo', 'proofs/L_C03div.vo', 'proofs/L_C03_C13.vo']
+TARGETS = ['model/M_C03.vo', 'proofs/L_C03sn.vo', 'proofs/L_C03cert.vo', 'proofs/L_C03tab.vo', 'proofs/L_C03lift.vo', 'proofs/L_C03int.vo', 'proofs/L_C03div.vo', 'proofs/L_C03_C13.vo', 'proofs/L_C03edge.vo', 'proofs/L_C03geo.vo']
 COQ_FILES = ['base/Num.v', 'model/M_C03.v', 'proofs/L_C03sn.v', 'proofs/L_C03cert.v', 'proofs/L_C03tab.v', 'proofs/L_C03lift.v',
-             'proofs/L_C03int.v', 'proofs/L_C03div.v', 'proofs/L_C03_C13.v', 'props/P_C03.v']
+             'proofs/L_C03int.v', 'proofs/L_C03div.v', 'proofs/L_C03_C13.v', 'proofs/L_C03edge.v', 'proofs/L_C03geo.v', 'props/P_C03.v']
 TRUSTED = ['Coq 8.16.1 kernel + vm_compute (no native_compute)',
            'tools/vlib/tab_c03.py: extraction of the tabulated rules (decimal source text -> exact rationals) and of the index structure of the geometric kernels from the Python AST, fail closed',
            'harness: exact binary64 -> (mantissa, exponent) conversion of every runtime table, sharding of certificates, de-duplication of byte-identical tables',
@@ -41,9 +45,9 @@ TRUSTED = ['Coq 8.16.1 kernel + vm_compute (no native_compute)',
            'element nodes are the affine images of the reference nodes (owned by C13; checked per mesh in L2 as a guard)']
 ASSUMPTIONS = ['exact real arithmetic in the lifting theorems; table errors enter as the hypotheses RefIds/TriQuadExact/Gauss1dExact with the certified eps',
                'the integral over a physical triangle is jac times the Riemann integral over the reference triangle of the pulled-back integrand (affine change of variables taken as definition; signed with the vertex orientation)',
-               'edge quadrature theorem is stated at the exact edge points A + s_q t (the certified 1-D shape tables put the interpolated points within 1e-11 relative of them)',
+               'edge quadrature theorems: at the exact edge points A + s_q t (C03_edge_flux_quadrature_partial) and at the implementation\'s interpolated points (C03_edge_flux_impl_points: hypotheses delta = node placement error, Lam = Lebesgue sum <= 2 certified; C03_edge_flux_quadrature / C03_divergence_mesh_discrete for exact nodes); boundary edges must be geometrically non-degenerate (A <> B)',
                'mesh divergence theorem: no directed vertex pair occurs twice and no element side is degenerate (checked on every L2 mesh); the create_edges model is C13\'s, tied to Mesh.create_edges by C13\'s correspondence and by the L2 premise check here']
-RULE = ('second-wave L2 additions per mesh: integrate_over_block on a proper non-prefix element subset, with a per-element parameter field, with a random state-variable field, and with an integrand using the primal field and its gradient (polynomial nodal fields, exact rational reference values); project_quadrature_field_to_element_field against the volume-weighted average and the exact element mean of monomials; edge integrals whose integrand multiplies the interpolated nodal field with the position; Surface.integrate_function_on_surface on the simplex mesh of every cartesian case; axisymmetric mode for every (order, bubble) combination in every tier. '
+RULE = ('round-4 L2 addition per cartesian mesh: for up to 4 sampled boundary edges the implementation\'s interpolated edge points (interpolate_nodal_field_on_edge of the coordinate field) against A + s_q t within delta*Lam_q + 1e-11*emax (+16 ulp), and integrate_function_on_edge against the same sum at the exact edge points within the proved Lipschitz bound (count l2_edge_point_checks, worst ratio edge_point_max_deviation_over_bound). second-wave L2 additions per mesh: integrate_over_block on a proper non-prefix element subset, with a per-element parameter field, with a random state-variable field, and with an integrand using the primal field and its gradient (polynomial nodal fields, exact rational reference values); project_quadrature_field_to_element_field against the volume-weighted average and the exact element mean of monomials; edge integrals whose integrand multiplies the interpolated nodal field with the position; Surface.integrate_function_on_surface on the simplex mesh of every cartesian case; axisymmetric mode for every (order, bubble) combination in every tier. '
         'certificates: the complete set {order 1..5} x {bubble on/off} x {2-D degree 1..10}, {order 1..5} x {1-D degree 0..25}, all 1-D and 2-D rules, obtained by '
         'calling the implementation\'s constructors; one configuration = one distinct item. L2: seeded random Delaunay / graded / rotated / anisotropic / '
         'structured triangulations with random cyclic vertex rotation per element, orders and bubble cycling through all combinations, random rule degrees, '
@@ -58,6 +62,7 @@ TOL_TRI_RT = (1, 10 ** 14)    # runtime (binary64) triangle tables: 1e-14
 TOL_G1D = (1, 10 ** 13)       # 1e-13
 TOL_FACE = (1, 10 ** 13)
 TOL_LOB = (1, 10 ** 13)    # symmetry of the 1-D node sets
+BOUND_LEB = (2, 1)         # Lebesgue sums of the 1-D shape tables at the 1-D rule points: sum_a |N_a(s_q)| <= 2
 
 
 # ----------------------------------------------------------------------------- helpers
@@ -216,7 +221,7 @@ def cert_files(T):
                           dict(kind='shapes2d', configs=(len(DEG2D) + 1) if si == 0 else 0, distinct=len(seen))))
     # --- 1-D shape tables and node sets per order
     for p in ORDERS:
-        body = [CERT_HEAD]
+        body = [CERT_HEAD, 'From OV.proofs Require Import L_C03edge.']
         e1 = T.el1d[p]
         body.append('Definition nodes1 : list sn := %s.' % snl(e1['coords']))
         body.append('Definition lobatto : list sn := %s.' % snl(T.lob[p]))
@@ -237,7 +242,11 @@ def cert_files(T):
                 body.append('Definition q_%d : list qrec1 := [%s].' % (k, ';\n  '.join(recs)))
                 body.append('Example sh_%d : shapes1d_ok 2 %d nodes1 q_%d %d %d = true.\n%s' % ((k, p, k) + TOL_SHAPE + (QED,)))
                 body.append('Definition sh_%d_meaning := shapes1d_ok_sound 2 two_le_two %d nodes1 q_%d %d %d eq_refl sh_%d.' % ((k, p, k) + TOL_SHAPE + (k,)))
+                # Lebesgue sums sum_a |N_a(s_q)| <= 2 (hypothesis Lam of C03_edge_flux_impl_points)
+                body.append('Example leb_%d : lebesgue1_ok 2 q_%d %d %d = true.\n%s' % ((k, k) + BOUND_LEB + (QED,)))
+                body.append('Definition leb_%d_meaning := lebesgue1_ok_sound_b2 q_%d %d %d eq_refl leb_%d.' % ((k, k) + BOUND_LEB + (k,)))
             cfgmap['shapes1d:p=%d,d=%d' % (p, d)] = 'cert_C03_s1_p%d#sh_%d' % (p, seen[key])
+            cfgmap['lebesgue1d:p=%d,d=%d' % (p, d)] = 'cert_C03_s1_p%d#leb_%d' % (p, seen[key])
         cfgmap['nodes1d:p=%d' % p] = 'cert_C03_s1_p%d#nodes1_ok,lobatto_ok' % p
         files.append(('cert_C03_s1_p%d' % p, '\n'.join(body) + '\n', dict(kind='shapes1d', configs=len(DEG1D) + 1, distinct=len(seen))))
     return files, cfgmap
@@ -638,7 +647,56 @@ def l2_case(case):
                 nev += 1
                 if not abs(got2 - float(exact)) <= tol:
                     bad.append('divergence theorem (Surface.integrate_function_on_surface) fails for F=(x^%d y^%d, x^%d y^%d), 1-D degree %d: %r vs %r' % (a, b, c, e_, d1, got2, float(exact)))
-    return bad, nev, dict(elements=ne, nodes=int(X.shape[0]), min_jac=float(onp.abs(jac).min()), max_aspect=float((Kx * onp.sqrt(onp.abs(jac))).max()))
+        # (g') conclusions of C03_edge_point_distance and of the perturbation bound behind C03_edge_flux_impl_points on the
+        # implementation's OWN edge points and edge sums, for a sample of boundary edges: X_q = edgeShapes^T @ edgeCoords must lie
+        # within  delta * Lam_q + eps_s * emax  of  A + s_q t  (delta: measured placement error of the edge nodes, Lam_q: sum_a |N_a(s_q)|
+        # of the implementation's 1-D tables, eps_s = 1e-11 the certified table tolerance), and the edge sum within
+        # (1 + eps_q) * lip_term of the same sum at the exact points
+        from optimism import Interpolants
+        U64 = 2.0 ** -52
+        e1 = mesh.parentElement1d
+        sig = onp.asarray(e1.coordinates, dtype=onp.float64)
+        s1 = onp.asarray(qr1.xigauss, dtype=onp.float64)
+        w1 = onp.asarray(qr1.wgauss, dtype=onp.float64)
+        N1 = onp.asarray(Interpolants.compute_shapes(e1, qr1.xigauss).values, dtype=onp.float64)      # [nn1, nq1]
+        Lam = onp.abs(N1).sum(axis=0)
+        fnodes = onp.asarray(mesh.parentElement.faceNodes)
+        mlip = lambda M, i, j: (i * M ** (i - 1) * M ** j if i else 0.0) + (j * M ** i * M ** (j - 1) if j else 0.0)
+        nedge = 0
+        eratio = 0.0
+        for (el, side) in (r.sample([tuple(int(x) for x in b_) for b_ in bnd], min(4, len(bnd))) if len(bnd) else []):
+            A_ = coords[conns[el][side]]
+            B_ = coords[conns[el][(side + 1) % 3]]
+            t_ = B_ - A_
+            Xe = X[cn[el, fnodes[side]]]
+            delta = float(onp.abs(Xe - (A_[None, :] + sig[:, None] * t_[None, :])).max())
+            emax = max(abs(A_[0]) + abs(t_[0]), abs(A_[1]) + abs(t_[1]))
+            Xq_impl = onp.asarray(FunctionSpace.interpolate_nodal_field_on_edge(fs, mesh.coords, qr1.xigauss, (el, side)), dtype=onp.float64)
+            Xq_ex = A_[None, :] + s1[:, None] * t_[None, :]
+            eta = delta * Lam + 1e-11 * emax
+            dev = onp.abs(Xq_impl - Xq_ex).max(axis=1)
+            nev += len(s1)
+            nedge += 1
+            eratio = max(eratio, float((dev / (eta + 16 * U64 * Lam * emax)).max()) if Xq_impl.shape == Xq_ex.shape else float('inf'))
+            if Xq_impl.shape != Xq_ex.shape or not (dev <= eta + 16 * U64 * Lam * emax).all():
+                bad.append('edge (%d, %d): interpolated edge points deviate from A + s_q t by %.3g, bound delta*Lam + eps_s*emax = %.3g (delta %.3g, 1-D degree %d)' % (
+                    el, side, float(dev.max()), float(eta.max()), delta, d1))
+                continue
+            fe = (lambda u, x, n, a=a, b=b, c=c, e_=e_: x[0] ** a * x[1] ** b * n[0] + x[0] ** c * x[1] ** e_ * n[1])
+            got_e = float(FunctionSpace.integrate_function_on_edge(fs, fe, jnp.asarray(X), qr1, (el, side)))
+            F1e = Xq_ex[:, 0] ** a * Xq_ex[:, 1] ** b
+            F2e = Xq_ex[:, 0] ** c * Xq_ex[:, 1] ** e_
+            want_e = float((w1 * F1e).sum() * t_[1] - (w1 * F2e).sum() * t_[0])
+            etam = float(eta.max())
+            Mb = emax + etam
+            lipt = etam * (mlip(Mb, a, b) * abs(t_[1]) + mlip(Mb, c, e_) * abs(t_[0]))
+            tol_e = (1 + 1e-13) * lipt + 64 * U64 * float((w1 * (onp.abs(F1e) * abs(t_[1]) + onp.abs(F2e) * abs(t_[0]))).sum()) + 1e-300
+            nev += 1
+            if not abs(got_e - want_e) <= tol_e:
+                bad.append('edge (%d, %d): edge sum for F=(x^%d y^%d, x^%d y^%d) is %r, the sum at the exact edge points %r, Lipschitz bound %.3g' % (
+                    el, side, a, b, c, e_, got_e, want_e, tol_e))
+    return bad, nev, dict(elements=ne, nodes=int(X.shape[0]), min_jac=float(onp.abs(jac).min()), max_aspect=float((Kx * onp.sqrt(onp.abs(jac))).max()),
+                          edge_checks=(nedge if mode == 'cartesian' else 0), edge_ratio=(eratio if mode == 'cartesian' else 0.0))
 
 
 # ----------------------------------------------------------------------------- L1: geometric kernels, model (binary64) vs implementation
@@ -832,6 +890,12 @@ def table_identities_exact(T, limit=5):
                 if max(abs(e0), abs(e1)) > Fr(*TOL_SHAPE):
                     add('1-D shape table order %d at point %d of the degree-%d rule does not reproduce s^%d' % (p, q, d, k),
                         dict(ckind='table', table='shapes1d', order=p, degree=d, point=q, mono=[k]))
+    for (p, d), (N, dN) in T.shapes1d.items():
+        for q in range(N.shape[1]):
+            lam = sum(abs(a) for a in F(N[:, q]))
+            if lam > Fr(*BOUND_LEB):
+                add('1-D shape table order %d at point %d of the degree-%d rule has Lebesgue sum %.6g > %s' % (p, q, d, float(lam), BOUND_LEB[0] / BOUND_LEB[1]),
+                    dict(ckind='table', table='shapes1d', order=p, degree=d, point=q, mono=None))
     for (p, bub), el in T.el2d.items():
         X = el['coords']
         s1 = T.el1d[p]['coords']
@@ -892,6 +956,8 @@ def run_l2(ctx, cases):
             seen.add(key)
             ctx.count('distinct_nontrivial')
         ctx.count('l2_kind_' + c['kind'])
+        ctx.count('l2_edge_point_checks', st.get('edge_checks', 0))
+        ctx.cov['edge_point_max_deviation_over_bound'] = max(ctx.cov.get('edge_point_max_deviation_over_bound', 0.0), st.get('edge_ratio', 0.0))
         ctx.count('l2_order_%d%s' % (c['order'], 'b' if c['bubble'] else ''))
         if len(ctx.samples) < 3:
             ctx.sample(dict(case=c, stats=st, violated=bad))
@@ -919,7 +985,7 @@ def correspondence(ctx, model_ok):
     nbad = [r_ for r_ in res if not r_['ok']]
     ctx.cov['certificates'] = dict(files=len(res), configurations=len(cfgmap), failed=[r_['name'] for r_ in nbad],
                                    seconds=round(time.time() - t0, 1), bytes=sum(r_['bytes'] for r_ in res),
-                                   tolerances=dict(shapes='1e-11', tri_runtime='1e-14', gauss1d='1e-13', faces='1e-13', nodes1d_symmetry='1e-13'))
+                                   tolerances=dict(shapes='1e-11', tri_runtime='1e-14', gauss1d='1e-13', faces='1e-13', nodes1d_symmetry='1e-13', lebesgue1d_bound='2'))
     ctx.cov['certificate_map_sample'] = dict(list(sorted(cfgmap.items()))[:6])
     ctx.cov['certificate_obligations'] = sum(t.count('Qed.') for _, t, _ in files)
     ctx.count('certified_configurations', len(cfgmap))
